@@ -38,7 +38,7 @@ where
     R::Ref: IsoClass,
 {
     let key = format!("kh:{ring}:{name}:{}:h={},t={},red={}", code_string(d), cfg.h, cfg.t, cfg.reduced as u8);
-    let detail = |lib: String, rf: String| json!({"pd": d.pd(), "ring": ring, "h": cfg.h, "t": cfg.t, "reduced": cfg.reduced, "library": lib, "reference": rf});
+    let detail = |lib: String, rf: String| json!({"pd": pd_of(link), "ring": ring, "h": cfg.h, "t": cfg.t, "reduced": cfg.reduced, "library": lib, "reference": rf});
     let (h, t) = (R::from_ref(&R::Ref::from_i64(cfg.h)), R::from_ref(&R::Ref::from_i64(cfg.t)));
     run.add("evaluations", 1);
     match catch(|| total_table(&KhHomology::<R>::new(link, &h, &t, cfg.reduced))) {
@@ -127,6 +127,29 @@ fn check_diagram(run: &Run, name: &str, d: &Diagram, level: u8) {
     }
 }
 
+/// every presentation (edge relabeling x crossing listing order) of the diagram: reduced and
+/// unreduced homology at h = t = 0 and reduced Lee-type (h = 1) must still equal the cube, whose
+/// base point is recomputed from the code (smallest label of the first listed crossing)
+fn check_presentations(run: &Run, name: &str, d: &Diagram) {
+    for (vn, code) in code_variants(d, d.n >= 4).into_iter().skip(1) {
+        let Some((d2, base)) = parse_with_base(&code) else {
+            eprintln!("MACHINERY ERROR: variant {vn} of {name} does not parse");
+            std::process::exit(3);
+        };
+        let link = Link::from_pd_code(code.clone());
+        let vname = format!("{name}:{vn}");
+        for c in [Cfg { h: 0, t: 0, reduced: true }, Cfg { h: 0, t: 0, reduced: false }, Cfg { h: 1, t: 0, reduced: true }] {
+            let r = khovanov::<Z>(&d2, &z(c.h), &z(c.t), c.reduced.then_some(base));
+            compare_with::<i64>(run, "i64", &vname, &d2, &link, c, &r);
+            if c.reduced && c.h == 0 {
+                let r2 = khovanov::<Fp<2>>(&d2, &Fp::new(0), &Fp::new(0), Some(base));
+                compare_with::<FF2>(run, "FF2", &vname, &d2, &link, c, &r2);
+            }
+        }
+        run.add("presentations", 1);
+    }
+}
+
 fn corner_cases(run: &Run) {
     // the empty link and the crossingless unknot (no reference diagram: expected values by hand)
     let one = |rank: usize| Module::<Z> { rank, tors: vec![] };
@@ -192,6 +215,9 @@ fn main() {
             run.sample(json!({"part": 1, "diagram": name, "pd": d.pd(), "config_level": lvl}));
         }
         check_diagram(&run, name, d, *lvl);
+        if d.n <= 3 || *lvl >= 1 {
+            check_presentations(&run, name, d);
+        }
     });
     let part1 = run.get("evaluations");
     // ---- part 2: orders of the Bar-Natan machine (explicit-state) -------------------------------
